@@ -548,3 +548,122 @@ have h (s : seq Z) : all (fun x => Z.ltb (Z.log2 (Z.abs x)) 16777216) s ->
   forall x, x \in s -> (Z.log2 (Z.abs x) < 16777216)%ZZ by move=> /allP hs x /hs /Z.ltb_lt.
 by split; split=> //; exact: h.
 Qed.
+
+(** * Seventh wave: the prime search returns on the fuel the model supplies (Refine/W7C07Det.v, W7C07Fuel.v).
+
+    A prime is rejected only if it divides D = lc(q) * Res(q', q) ([find_prime_small]); k distinct rejected primes
+    give 2^k <= |D|; and |D| <= n^n ||q||_1^(2n) < 2^(prime_fuel q - 8) by the row-sum bound of the Sylvester
+    determinant (n = deg q). The primes tried are real primes: the iterator returns (C19 [primes_next_total]) and
+    the modular routines [poly_mod], [differential], [poly_gcd] are total modulo a prime. The [as i32] wrap is
+    excluded by a hypothesis: some prime below 2^31 does not divide D ([..._of_small_prime], no size condition),
+    which holds whenever [prime_fuel q <= 2^30] ([find_prime_terminates], a condition on the size of q only:
+    |D| then has fewer than 2^30 bits and the product of the primes below 2^31 has more).
+    Within these bounds this section and the next supersede the lines "NOT proved: termination of the prime search" and
+    "absence of panics" of the headers above; termination of the modular factorisation for all draw streams stays open. *)
+From RNT.Refine Require Import W7C07Det W7C07Fuel.
+From mathcomp Require Import ssrnum.
+
+(** ** [P] determinant_row_sum_bound: |det A| <= prod_i sum_j |A i j| over any numeric domain;
+    resultant_l1_bound: |Res(p, q)| <= ||p||_1^(deg q) * ||q||_1^(deg p), [norm1 p = \sum_(i < size p) `|p`_i|] *)
+Theorem determinant_row_sum_bound (R : numDomainType) n (A : 'M[R]_n) :
+  (`|\det A| <= \prod_i \sum_j `|A i j|)%R.
+Proof. exact: W7C07Det.det_row_sum_le. Qed.
+Theorem resultant_l1_bound (R : numDomainType) (p q : {poly R}) :
+  (`|resultant p q| <= norm1 p ^+ (size q).-1 * norm1 q ^+ (size p).-1)%R.
+Proof. exact: W7C07Det.resultant_row_sum_le. Qed.
+
+(** ** [P] discriminant_below_fuel: for a canonical non-constant q, |lc(q) Res(q', q)| < 2^(prime_fuel q - 8) *)
+Theorem discriminant_below_fuel (q : seq Z) : canonZ q -> (1 < size q)%N ->
+  (Z.abs (lead_coef (Poly q) * resultant (Poly q)^`() (Poly q)) < 2 ^ (Z.of_nat (prime_fuel q) - 8))%ZZ.
+Proof. exact (@W7C07Fuel.disc_lt_pow2_fuel q). Qed.
+(* x^4 - 10x^2 + 1: lc * Res = 147456 < 2^70 *)
+Example ex_discriminant_below_fuel : prime_fuel [:: 1; 0; -10; 0; 1]%ZZ = 78%N /\ (147456 < 2 ^ 70)%ZZ.
+Proof. by split; vm_compute. Qed.
+
+(** ** [P] find_prime_terminates_of_small_prime: for a canonical non-constant q and any prime p0 < 2^31 not
+    dividing lc(q) * Res(q', q), the search [find_prime (prime_fuel q) q 2] -- the call made by
+    [get_factors_of_squarefree] -- returns (no OutOfFuel, no panic) a prime p <= p0 equal to its machine-word copy. *)
+Theorem find_prime_terminates_of_small_prime (q : seq Z) (p0 : Z) : canonZ q -> (1 < size q)%N ->
+  Znumtheory.prime p0 -> (p0 < 2147483648)%ZZ ->
+  ~ (p0 | lead_coef (Poly q) * resultant (Poly q)^`() (Poly q))%ZZ ->
+  exists p, [/\ find_prime (prime_fuel q) q 2 = Done (p, p), Znumtheory.prime p & (p <= p0)%ZZ].
+Proof. exact (@W7C07Fuel.find_prime_terminates_of_small_prime q p0). Qed.
+
+(** ** [P] find_prime_terminates: for every canonical non-constant q, square-free over Q, with
+    prime_fuel q = 2 len (log2 ||q||_1 + log2 len + 2) + 8 <= 2^30 (a condition on the size of q only; for
+    degree 25 it allows coefficients of 20 million bits), the search returns a prime below 2^31, not wrapped.
+    Full statement (not proved; beyond this size the faithful model wraps primes above 2^31 to negative moduli and
+    the tests made with them are no longer divisibility tests): the same without the size condition. *)
+Theorem find_prime_terminates (q : seq Z) : canonZ q -> (1 < size q)%N ->
+  separable_poly (Poly q) -> (Z.of_nat (prime_fuel q) <= 1073741824)%ZZ ->
+  exists p, [/\ find_prime (prime_fuel q) q 2 = Done (p, p), Znumtheory.prime p & (p < 2147483648)%ZZ].
+Proof. exact (@W7C07Fuel.find_prime_terminates q). Qed.
+(* x^4 - 10x^2 + 1 and -6(x^2+x+1)(2x^2+1) meet the hypotheses (fuel 78 and 98; the search on the first returns 5) *)
+Example ex_find_prime_terminates :
+  let a := [:: 1; 0; -10; 0; 1]%ZZ in let b := [:: -6; -6; -18; -12; -12]%ZZ in
+  [/\ canonZ a, (1 < size a)%N, separable_poly (Poly a) & (Z.of_nat (prime_fuel a) <= 1073741824)%ZZ] /\
+  [/\ canonZ b, (1 < size b)%N, separable_poly (Poly b) & (Z.of_nat (prime_fuel b) <= 1073741824)%ZZ] /\
+  find_prime (prime_fuel a) a 2 = Done (5%ZZ, 5%ZZ).
+Proof.
+have [sa sb] := ex_separable_hyp.
+by split; [split=> //; apply/Z.leb_le; vm_compute | split; [split=> //; apply/Z.leb_le; vm_compute | vm_compute]].
+Qed.
+
+(** * Seventh wave, continued: no panic inside the modular factorisation, the Hensel lifting and the recombination
+    on the inputs [factorize] passes to them (Refine/W7C07Stages.v, W7C07Recombine.v, W7C07Sized.v, W7C07NoPanic.v).
+
+    Once the prime search has returned an unwrapped prime p for the square-free part q (degree 1..25):
+    the coefficient bound and the exponent loop return ([coefficient_bound_no_overflow], [exponent_loop_spec]);
+    [factorize_mod_p] returns or exhausts the retry fuel of its randomised stages (C08 [factorize_mod_p_no_panic]);
+    q mod p is square-free (p passed the gcd test of the search), so every modular multiplicity is 1 and the check of
+    the multiplicities passes; the modular factors are monic, irreducible and pairwise distinct, hence pairwise
+    coprime with Bezout witnesses in Z[x], so [lift_factorization] returns (C11 [lift_factorization_total]); there
+    are at most deg q <= 25 lifted factors, so the [assert!(lifted.len() <= 25)] passes; in every subset test
+    the indices are in range, the modulus is non-zero, the product is non-zero modulo p^e (so [prod.deg() + 1] does
+    not overflow) and the [expect] cannot fire; the recombination loop terminates on its fuel. The only outcome other
+    than a value is OutOfFuel, exactly when the modular factorisation ran out of its retry fuel. *)
+From RNT.Refine Require Import W7C07NoPanic.
+From RNT.Model Require Import FactorModP.
+
+(** ** [C] squarefree_factors_no_panic_partial: conditional on a value the run computes (the prime search returned a
+    prime equal to its machine-word copy). Full statement: [squarefree_factors_no_panic_sized] below discharges the
+    condition for inputs within a size bound; without a size bound it is not proved. *)
+Theorem squarefree_factors_no_panic_partial md (q : seq Z) r p : canonZ q -> (1 < size q)%N -> (size q <= 26)%N ->
+  find_prime (prime_fuel q) q 2 = Done (p, p) ->
+  (exists fs r', get_factors_of_squarefree md q r = Done (fs, r')) \/
+  (get_factors_of_squarefree md q r = OutOfFuel /\ factorize_mod_p md q p p r = OutOfFuel).
+Proof. exact (@W7C07NoPanic.get_factors_core md q r p). Qed.
+
+(** ** [P] squarefree_factors_no_panic_sized: for every canonical q of degree 1..25, square-free over Q, with
+    prime_fuel q <= 2^30, every draw stream and both profiles: [get_factors_of_squarefree] returns a value, or runs out
+    of fuel and then the prime search had returned a prime p and [factorize_mod_p] ran out of its retry fuel. No panic. *)
+Theorem squarefree_factors_no_panic_sized md (q : seq Z) r : canonZ q -> (1 < size q)%N -> (size q <= 26)%N ->
+  separable_poly (Poly q) -> (Z.of_nat (prime_fuel q) <= 1073741824)%ZZ ->
+  (exists fs r', get_factors_of_squarefree md q r = Done (fs, r')) \/
+  (get_factors_of_squarefree md q r = OutOfFuel /\
+   exists p, [/\ find_prime (prime_fuel q) q 2 = Done (p, p), Znumtheory.prime p & factorize_mod_p md q p p r = OutOfFuel]).
+Proof. exact (@W7C07NoPanic.get_factors_no_panic_sized md q r). Qed.
+
+(** ** [P] factorize_no_panic_sized: for EVERY canonical input of degree <= 25 whose coefficients have at most
+    2^24 bits (the inputs of [factorize_correct_sized]), every draw stream and both profiles: [factorize] returns a
+    value, or runs out of fuel and then it was the modular factorisation of the square-free part q = pp / gcd(pp, pp') modulo
+    the prime p found by the search that ran out of its retry fuel (400 failed random splits in a row or 4096 rejected samples: a
+    probability-zero event for a true random stream; the Rust code would keep drawing). No panic: none of the
+    [assert!], [expect], index, overflow or division-by-zero panics of poly_z::factorize, poly_mod::factorize_mod_p,
+    hensel::lift_factorization and their helpers is reachable from these inputs. *)
+Theorem factorize_no_panic_sized md (a : seq Z) r : canonZ a -> (size a <= 26)%N ->
+  (forall x, x \in a -> (Z.log2 (Z.abs x) < 16777216)%ZZ) ->
+  (exists c l r', factorize md a r = Done (c, l, r')) \/
+  (factorize md a r = OutOfFuel /\
+   exists g q p, [/\ (Resultant.resultant_gcd (cont_pp a).2 (pdiff opsZ (cont_pp a).2)).2 = Done g, div_exact (cont_pp a).2 g = Some q,
+                      find_prime (prime_fuel q) q 2 = Done (p, p) & factorize_mod_p md q p p r = OutOfFuel]).
+Proof. exact (@W7C07NoPanic.factorize_no_panic_sized md a r). Qed.
+(* both alternatives occur on x^4 - 10x^2 + 1 (hypotheses: [ex_sized_hyp]): with the 16 bytes of [ex_swinnerton_dyer] the
+   run returns; on the empty draw stream (all draws 0) the equal-degree splitting modulo 5 fails 400 times *)
+Example ex_factorize_no_panic :
+  let a := [:: 1; 0; -10; 0; 1]%ZZ in
+  factorize Checked a (rng_of [:: 13; 200; 7; 99; 45; 1; 250; 33; 17; 88; 91; 4; 5; 6; 7; 8]%ZZ)
+    = Done (1%ZZ, [:: ([:: 1; 0; -10; 0; 1], 1)]%ZZ, rng_of [::])
+  /\ factorize Checked a (rng_of [::]) = OutOfFuel
+  /\ find_prime (prime_fuel a) a 2 = Done (5%ZZ, 5%ZZ) /\ factorize_mod_p Checked a 5 5 (rng_of [::]) = OutOfFuel.
+Proof. by vm_compute. Qed.
